@@ -16,7 +16,12 @@ cd $wt
 cp $demo ./zz_seed_demo_test.go
 rx=$(grep -oE '^func Test[A-Za-z0-9_]+' zz_seed_demo_test.go | sed 's/func //' | paste -sd'|')
 if timeout 600 go test -count=1 -run "^($rx)\$" . >/tmp/admit/$id$tv.clean.log 2>&1; then clean=pass; else clean=FAIL; fi
-git apply $patch 2>/tmp/admit/$id$tv.apply.log || { echo "$id$tv: PATCH-DOES-NOT-APPLY"; exit 3; }
+if ! git apply $patch 2>/tmp/admit/$id$tv.apply.log; then
+  # written against an older HEAD: three-way merge onto the current one (the stored patch is then the merged diff)
+  git apply --3way $patch 2>>/tmp/admit/$id$tv.apply.log && git reset -q && rm -f zz_seed_demo_test.go && git diff > /tmp/admit/$id$tv.rebased.diff && cp $demo ./zz_seed_demo_test.go \
+    || { echo "$id$tv: PATCH-DOES-NOT-APPLY"; exit 3; }
+  patch=/tmp/admit/$id$tv.rebased.diff; rebased=true
+fi
 if timeout 600 go test -count=1 -run "^($rx)\$" . >/tmp/admit/$id$tv.patched.log 2>&1; then patched=PASS; else patched=fail; fi
 rm -f zz_seed_demo_test.go
 go test -json -vet=off -count=1 ./... > /tmp/admit/$id$tv.suite.json 2>&1
